@@ -350,6 +350,7 @@ class Run:
             purges.clear()
 
         msg_id = 1
+        lookups: List[Any] = []
         last_inject: List[Optional[float]] = [None]
         for step, op in enumerate(self.history):
             kind = op[0]
@@ -426,6 +427,15 @@ class Run:
                 tgt = [l for l in listeners if l.registered]
                 if tgt:
                     tgt[op[1] % len(tgt)].armed = (op[2], op[3], op[4])
+            elif kind == 'lookup':
+                # the application looks an instance up: while the lookup is pending its ServiceInfo is one more update listener of
+                # the instance, called in the same rounds as the observers
+                from zeroconf.asyncio import AsyncServiceInfo
+
+                info = AsyncServiceInfo(OWNERS[T][0], OWNERS[[I, J][op[1] % 2]][0])
+                lookups.append(asyncio.ensure_future(info.async_request(zc, op[2])))
+                await asyncio.sleep(0)
+                run.stats['lookup_pending'] = run.stats.get('lookup_pending', 0) + 1
             # the engine purges every 10 s: nothing may linger more than one purge period past its expiry
             now_q = w.now_ms
             for store in zc.cache.cache.values():
@@ -435,6 +445,10 @@ class Run:
                                   {'ident': ident_of_record(r), 'expired_ms_ago': now_q - (r.created + 1000 * r.ttl)})
             if len(self.viol) >= 4:
                 break
+        for t_ in lookups:
+            t_.cancel()
+        if lookups:
+            await asyncio.gather(*lookups, return_exceptions=True)
 
     @staticmethod
     async def _tick_exact(w: sim.World, base_ms: float, ms: float) -> None:
